@@ -132,14 +132,16 @@ theorem okRule_join (r : Rule) (h : okRule r = true) : okRule (joinRuleComments 
     simpa [okComment] using okCommentChars_join r.comments hne h3
   · exact h
 
+theorem joinRuleComments_of_short (r : Rule) (h : ¬ r.comments.length ≥ 2) : joinRuleComments r = r := by
+  unfold joinRuleComments
+  rw [if_neg h]
+
 theorem joinRuleComments_idem (r : Rule) : joinRuleComments (joinRuleComments r) = joinRuleComments r := by
-  have : ¬ (joinRuleComments r).comments.length ≥ 2 := by
-    unfold joinRuleComments
-    split
-    · simp
-    · assumption
-  conv => lhs; unfold joinRuleComments
-  rw [if_neg this]
+  apply joinRuleComments_of_short
+  unfold joinRuleComments
+  split
+  · simp
+  · assumption
 
 /-- what comes back is covered again, and comes back unchanged the second time -/
 theorem printableOut_reparsed (e : Expr) (h : PrintableOut e = true) : PrintableOut (reparsed e) = true := by
